@@ -97,7 +97,24 @@ impl Check for C13 {
                 let fl = if rng.chance(1, 2) { 17 } else { 15 };
                 let c = crate::checks::csvimp::gen_sc_pub(rng, fl);
                 world.extra.insert("/w/import.yml".to_string(), crate::imp::docs_yaml(&c.docs));
-                world.extra.insert(c.file.clone(), crate::imp::render_csv(&c.layout, &c.statements[0]));
+                let mut csv = crate::imp::render_csv(&c.layout, &c.statements[0]);
+                // the bank changed its export: some header labels no longer match the
+                // configuration (the import fails; the failure must read the same every time)
+                if rng.chance(1, 3) {
+                    let mut lines: Vec<String> = csv.split('\n').map(|l| l.to_string()).collect();
+                    let h = c.layout.head_lines.len();
+                    if h < lines.len() {
+                        let d = c.layout.delimiter;
+                        let cells: Vec<String> = lines[h]
+                            .split(d)
+                            .enumerate()
+                            .map(|(i, x)| if i % 2 == 0 || rng.chance(1, 2) { format!("{}_v2", x) } else { x.to_string() })
+                            .collect();
+                        lines[h] = cells.join(&d.to_string());
+                        csv = lines.join("\n");
+                    }
+                }
+                world.extra.insert(c.file.clone(), csv);
                 source = c.file.clone();
             }
             let n_procs = 2 + rng.usize(4);
